@@ -28,6 +28,7 @@ type Ledger struct {
 	Log               []Call
 	FailAt            map[int]bool
 	ReadFail          map[atree.SlabID]bool
+	ReadFailHits      int // number of reads that failed because of ReadFail
 	Jitter            bool
 	n                 int
 	retrieved, stored int
@@ -91,6 +92,7 @@ func (l *Ledger) Remove(id atree.SlabID) error {
 func (l *Ledger) Retrieve(id atree.SlabID) ([]byte, bool, error) {
 	l.jitter()
 	if l.ReadFail[id] {
+		l.ReadFailHits++
 		return nil, false, ErrInjected
 	}
 	d, ok := l.Seg[id]
